@@ -124,6 +124,9 @@ fn case_from_tape(tape: &[u8], cfg: &program::GenCfg, st: &mut Stats) -> Vec<Vio
         if info.touching > 0 {
             st.count("layouts_with_touching_tokens");
         }
+        if info.pragma_comments > 0 {
+            st.count("layouts_with_comment_inside_a_pragma_value");
+        }
         layouts.push((format!("random-{k}"), txt, offs));
     }
     // string literal contents replaced by x-runs (same lengths => same offsets)
@@ -210,7 +213,7 @@ pub fn run(env: &Env) -> i32 {
     let meta = Meta {
         rule: "cases = (token sequence of a generated program, layout): one token per line (line = token index), one line without final newline, CRLF, no final newline, three random layouts (blank runs, tabs, CRLF, lone CR, line / block / doc comments with code-like text, multi-byte characters, touching tokens) and a variant with every string literal's content replaced by an x-run of equal length; oracle = for all 30 patterns the lines reported under a layout are exactly the lines of the tokens flagged in the one-token-per-line layout; non-trivial = the program has at least one finding; distinct by token sequence".into(),
         assumptions: vec![
-            "no comment is placed inside a pragma directive (for this lexer a comment there is part of the pragma value)".into(),
+            "comments are also placed inside pragma directives (before, between and after the version constraints, between an operator and its version); for this lexer such a comment is part of the value token, so the self-check compares pragma values modulo comments and white space; such comments never contain a ';' (it would end the directive)".into(),
             "each layout is re-lexed and must give the identical token sequence (generator self-check)".into(),
         ],
         extra: json!({"fuzz": fuzz_stats}),
@@ -219,6 +222,7 @@ pub fn run(env: &Env) -> i32 {
             ("layouts where two flagged tokens share a line".into(), g("layouts_where_two_flagged_tokens_share_a_line"), 500),
             ("layouts with a flagged token on the last unterminated line".into(), g("layouts_with_flagged_token_on_last_unterminated_line"), 200),
             ("programs with string literals blanked".into(), g("programs_with_string_literals_blanked"), 200),
+            ("layouts with a comment inside a pragma value".into(), g("layouts_with_comment_inside_a_pragma_value"), 200),
         ],
     };
     finish(env, st, meta)
